@@ -1,2 +1,190 @@
-(** C19 placeholder while the proofs are being written *)
-From DL Require Import Model.Config Model.ConfigRules.
+(** C19 — Configurations are read strictly and round-trip without loss.
+    Only statements, closed by [exact], with their assumptions printed.
+
+    The model (Model/Config.v, Model/ConfigRules.v) is darklua's rule / configuration (de)serializer with every
+    rule's property table; the oracles (glob, regex and identifier validity, normal forms of `globals`, of
+    require-mode values and of the bundle block, JSON held by environment variables) are universally
+    quantified, with their assumed behaviour ([oracles_ok], [bundle_ok]) as hypotheses.
+
+    Full-strength statement (REFUTED for the code as it is, see the three [_refuted] theorems):
+      every accepted rule reads back from its written form as an equivalent rule, and rules written
+      identically are equivalent.
+    Proved instead: the same under the decidable carve-out [writes_all] = "the configured rule keeps none of
+    the properties listed in C19_carve_out_is_exactly" (convert_require.current/target,
+    remove_attribute.match, remove_comments.except: accepted by `configure`, never written by
+    `serialize_to_properties`). *)
+From Coq Require Import List Bool String.
+From DL Require Import Model.Config Model.ConfigRules Proof.ConfigFacts Proof.ConfigTop Proof.ConfigRulesFacts.
+Import ListNotations.
+Open Scope string_scope.
+
+Definition C19_full_statement : Prop :=
+  forall (valid_glob valid_regex valid_ident : string -> bool) (norm_globals : list string -> list string) (norm_reqmode : json -> option json) (env_json_ok : string -> bool),
+  oracles_ok valid_ident norm_globals norm_reqmode ->
+  forall (j : json) (r : rule_cfg), deserialize_rule valid_glob valid_regex valid_ident norm_globals norm_reqmode env_json_ok rule_specs j = Some r ->
+  exists r', deserialize_rule valid_glob valid_regex valid_ident norm_globals norm_reqmode env_json_ok rule_specs (serialize_rule rule_specs r) = Some r' /\ rule_equiv r r'.
+
+Theorem C19_rule_strict :
+  forall (valid_glob valid_regex valid_ident : string -> bool) (norm_globals : list string -> list string) (norm_reqmode : json -> option json) (env_json_ok : string -> bool) (kvs : list (string * json)) (r : rule_cfg),
+  deserialize_rule valid_glob valid_regex valid_ident norm_globals norm_reqmode env_json_ok rule_specs (JObj kvs) = Some r ->
+  exists s, find_spec rule_specs (r_name r) = Some s /\
+  forall k j, In (k, j) kvs ->
+    In k reserved \/
+    exists p, find_prop s k = Some p /\
+              accepts_kind valid_regex valid_ident env_json_ok (p_kind p) (classify norm_reqmode j) = true.
+Proof. exact (fun vg vr vi ng nr ej => rule_strict vg vr vi ng nr ej rule_specs). Qed.
+Print Assumptions C19_rule_strict.
+Check C19_rule_strict :
+  forall (valid_glob valid_regex valid_ident : string -> bool) (norm_globals : list string -> list string) (norm_reqmode : json -> option json) (env_json_ok : string -> bool) (kvs : list (string * json)) (r : rule_cfg),
+  deserialize_rule valid_glob valid_regex valid_ident norm_globals norm_reqmode env_json_ok rule_specs (JObj kvs) = Some r ->
+  exists s, find_spec rule_specs (r_name r) = Some s /\
+  forall k j, In (k, j) kvs ->
+    In k reserved \/
+    exists p, find_prop s k = Some p /\
+              accepts_kind valid_regex valid_ident env_json_ok (p_kind p) (classify norm_reqmode j) = true.
+
+Theorem C19_rule_no_duplicate_key :
+  forall (valid_glob valid_regex valid_ident : string -> bool) (norm_globals : list string -> list string) (norm_reqmode : json -> option json) (env_json_ok : string -> bool) (kvs : list (string * json)) (r : rule_cfg),
+  deserialize_rule valid_glob valid_regex valid_ident norm_globals norm_reqmode env_json_ok rule_specs (JObj kvs) = Some r -> NoDup (map fst kvs).
+Proof. exact (fun vg vr vi ng nr ej => rule_no_duplicate_key vg vr vi ng nr ej rule_specs). Qed.
+Print Assumptions C19_rule_no_duplicate_key.
+Check C19_rule_no_duplicate_key :
+  forall (valid_glob valid_regex valid_ident : string -> bool) (norm_globals : list string -> list string) (norm_reqmode : json -> option json) (env_json_ok : string -> bool) (kvs : list (string * json)) (r : rule_cfg),
+  deserialize_rule valid_glob valid_regex valid_ident norm_globals norm_reqmode env_json_ok rule_specs (JObj kvs) = Some r -> NoDup (map fst kvs).
+
+Theorem C19_config_strict :
+  forall (valid_glob valid_regex valid_ident : string -> bool) (norm_globals : list string -> list string) (norm_reqmode : json -> option json) (env_json_ok : string -> bool) (norm_bundle : json -> option json) (kvs : list (string * json)) (c : config),
+  deserialize_config valid_glob valid_regex valid_ident norm_globals norm_reqmode env_json_ok norm_bundle rule_specs default_rule_names (JObj kvs) = Some c ->
+  (forall k, In k (map fst kvs) -> In k top_keys) /\ NoDup (map fst kvs).
+Proof. exact (fun vg vr vi ng nr ej nb => config_strict vg vr vi ng nr ej nb rule_specs default_rule_names). Qed.
+Print Assumptions C19_config_strict.
+Check C19_config_strict :
+  forall (valid_glob valid_regex valid_ident : string -> bool) (norm_globals : list string -> list string) (norm_reqmode : json -> option json) (env_json_ok : string -> bool) (norm_bundle : json -> option json) (kvs : list (string * json)) (c : config),
+  deserialize_config valid_glob valid_regex valid_ident norm_globals norm_reqmode env_json_ok norm_bundle rule_specs default_rule_names (JObj kvs) = Some c ->
+  (forall k, In k (map fst kvs) -> In k top_keys) /\ NoDup (map fst kvs).
+
+Theorem C19_rule_roundtrip :
+  forall (valid_glob valid_regex valid_ident : string -> bool) (norm_globals : list string -> list string) (norm_reqmode : json -> option json) (env_json_ok : string -> bool),
+  oracles_ok valid_ident norm_globals norm_reqmode ->
+  forall (j : json) (r : rule_cfg),
+  deserialize_rule valid_glob valid_regex valid_ident norm_globals norm_reqmode env_json_ok rule_specs j = Some r -> writes_all rule_specs r = true ->
+  exists r', deserialize_rule valid_glob valid_regex valid_ident norm_globals norm_reqmode env_json_ok rule_specs (serialize_rule rule_specs r) = Some r' /\ rule_equiv r r'.
+Proof. exact (fun vg vr vi ng nr ej => rule_roundtrip_darklua vg vr vi ng nr ej (fun _ => None)). Qed.
+Print Assumptions C19_rule_roundtrip.
+Check C19_rule_roundtrip :
+  forall (valid_glob valid_regex valid_ident : string -> bool) (norm_globals : list string -> list string) (norm_reqmode : json -> option json) (env_json_ok : string -> bool),
+  oracles_ok valid_ident norm_globals norm_reqmode ->
+  forall (j : json) (r : rule_cfg),
+  deserialize_rule valid_glob valid_regex valid_ident norm_globals norm_reqmode env_json_ok rule_specs j = Some r -> writes_all rule_specs r = true ->
+  exists r', deserialize_rule valid_glob valid_regex valid_ident norm_globals norm_reqmode env_json_ok rule_specs (serialize_rule rule_specs r) = Some r' /\ rule_equiv r r'.
+
+Theorem C19_rule_injective :
+  forall (valid_glob valid_regex valid_ident : string -> bool) (norm_globals : list string -> list string) (norm_reqmode : json -> option json) (env_json_ok : string -> bool),
+  oracles_ok valid_ident norm_globals norm_reqmode ->
+  forall (j1 j2 : json) (r1 r2 : rule_cfg),
+  deserialize_rule valid_glob valid_regex valid_ident norm_globals norm_reqmode env_json_ok rule_specs j1 = Some r1 -> deserialize_rule valid_glob valid_regex valid_ident norm_globals norm_reqmode env_json_ok rule_specs j2 = Some r2 ->
+  writes_all rule_specs r1 = true -> writes_all rule_specs r2 = true ->
+  serialize_rule rule_specs r1 = serialize_rule rule_specs r2 -> rule_equiv r1 r2.
+Proof. exact (fun vg vr vi ng nr ej => rule_injective_darklua vg vr vi ng nr ej (fun _ => None)). Qed.
+Print Assumptions C19_rule_injective.
+Check C19_rule_injective :
+  forall (valid_glob valid_regex valid_ident : string -> bool) (norm_globals : list string -> list string) (norm_reqmode : json -> option json) (env_json_ok : string -> bool),
+  oracles_ok valid_ident norm_globals norm_reqmode ->
+  forall (j1 j2 : json) (r1 r2 : rule_cfg),
+  deserialize_rule valid_glob valid_regex valid_ident norm_globals norm_reqmode env_json_ok rule_specs j1 = Some r1 -> deserialize_rule valid_glob valid_regex valid_ident norm_globals norm_reqmode env_json_ok rule_specs j2 = Some r2 ->
+  writes_all rule_specs r1 = true -> writes_all rule_specs r2 = true ->
+  serialize_rule rule_specs r1 = serialize_rule rule_specs r2 -> rule_equiv r1 r2.
+
+Theorem C19_config_roundtrip :
+  forall (valid_glob valid_regex valid_ident : string -> bool) (norm_globals : list string -> list string) (norm_reqmode : json -> option json) (env_json_ok : string -> bool) (norm_bundle : json -> option json),
+  oracles_ok valid_ident norm_globals norm_reqmode -> bundle_ok norm_bundle ->
+  forall (j : json) (c : config),
+  deserialize_config valid_glob valid_regex valid_ident norm_globals norm_reqmode env_json_ok norm_bundle rule_specs default_rule_names j = Some c -> forallb (writes_all rule_specs) (c_rules c) = true ->
+  exists c', deserialize_config valid_glob valid_regex valid_ident norm_globals norm_reqmode env_json_ok norm_bundle rule_specs default_rule_names (serialize_config rule_specs c) = Some c' /\ config_equiv c c'.
+Proof. exact (config_roundtrip_darklua). Qed.
+Print Assumptions C19_config_roundtrip.
+Check C19_config_roundtrip :
+  forall (valid_glob valid_regex valid_ident : string -> bool) (norm_globals : list string -> list string) (norm_reqmode : json -> option json) (env_json_ok : string -> bool) (norm_bundle : json -> option json),
+  oracles_ok valid_ident norm_globals norm_reqmode -> bundle_ok norm_bundle ->
+  forall (j : json) (c : config),
+  deserialize_config valid_glob valid_regex valid_ident norm_globals norm_reqmode env_json_ok norm_bundle rule_specs default_rule_names j = Some c -> forallb (writes_all rule_specs) (c_rules c) = true ->
+  exists c', deserialize_config valid_glob valid_regex valid_ident norm_globals norm_reqmode env_json_ok norm_bundle rule_specs default_rule_names (serialize_config rule_specs c) = Some c' /\ config_equiv c c'.
+
+Theorem C19_config_injective :
+  forall (valid_glob valid_regex valid_ident : string -> bool) (norm_globals : list string -> list string) (norm_reqmode : json -> option json) (env_json_ok : string -> bool) (norm_bundle : json -> option json),
+  oracles_ok valid_ident norm_globals norm_reqmode -> bundle_ok norm_bundle ->
+  forall (j1 j2 : json) (c1 c2 : config),
+  deserialize_config valid_glob valid_regex valid_ident norm_globals norm_reqmode env_json_ok norm_bundle rule_specs default_rule_names j1 = Some c1 -> deserialize_config valid_glob valid_regex valid_ident norm_globals norm_reqmode env_json_ok norm_bundle rule_specs default_rule_names j2 = Some c2 ->
+  forallb (writes_all rule_specs) (c_rules c1) = true -> forallb (writes_all rule_specs) (c_rules c2) = true ->
+  serialize_config rule_specs c1 = serialize_config rule_specs c2 -> config_equiv c1 c2.
+Proof. exact (config_injective_darklua). Qed.
+Print Assumptions C19_config_injective.
+Check C19_config_injective :
+  forall (valid_glob valid_regex valid_ident : string -> bool) (norm_globals : list string -> list string) (norm_reqmode : json -> option json) (env_json_ok : string -> bool) (norm_bundle : json -> option json),
+  oracles_ok valid_ident norm_globals norm_reqmode -> bundle_ok norm_bundle ->
+  forall (j1 j2 : json) (c1 c2 : config),
+  deserialize_config valid_glob valid_regex valid_ident norm_globals norm_reqmode env_json_ok norm_bundle rule_specs default_rule_names j1 = Some c1 -> deserialize_config valid_glob valid_regex valid_ident norm_globals norm_reqmode env_json_ok norm_bundle rule_specs default_rule_names j2 = Some c2 ->
+  forallb (writes_all rule_specs) (c_rules c1) = true -> forallb (writes_all rule_specs) (c_rules c2) = true ->
+  serialize_config rule_specs c1 = serialize_config rule_specs c2 -> config_equiv c1 c2.
+
+Theorem C19_carve_out_is_exactly :
+  dropped_properties rule_specs =
+  [("convert_require", "current"); ("convert_require", "target"); ("remove_attribute", "match"); ("remove_comments", "except")].
+Proof. exact (dropped_properties_today). Qed.
+Print Assumptions C19_carve_out_is_exactly.
+Check C19_carve_out_is_exactly :
+  dropped_properties rule_specs =
+  [("convert_require", "current"); ("convert_require", "target"); ("remove_attribute", "match"); ("remove_comments", "except")].
+
+Theorem C19_roundtrip_refuted_unreadable :
+  forall (valid_glob valid_regex valid_ident : string -> bool) (norm_globals : list string -> list string) (norm_reqmode : json -> option json) (env_json_ok : string -> bool),
+  exists r, deserialize_rule valid_glob valid_regex valid_ident norm_globals norm_reqmode env_json_ok rule_specs w_convert_require = Some r /\
+            serialize_rule rule_specs r = JStr "convert_require" /\
+            deserialize_rule valid_glob valid_regex valid_ident norm_globals norm_reqmode env_json_ok rule_specs (serialize_rule rule_specs r) = None.
+Proof. exact (roundtrip_refuted_unreadable). Qed.
+Print Assumptions C19_roundtrip_refuted_unreadable.
+Check C19_roundtrip_refuted_unreadable :
+  forall (valid_glob valid_regex valid_ident : string -> bool) (norm_globals : list string -> list string) (norm_reqmode : json -> option json) (env_json_ok : string -> bool),
+  exists r, deserialize_rule valid_glob valid_regex valid_ident norm_globals norm_reqmode env_json_ok rule_specs w_convert_require = Some r /\
+            serialize_rule rule_specs r = JStr "convert_require" /\
+            deserialize_rule valid_glob valid_regex valid_ident norm_globals norm_reqmode env_json_ok rule_specs (serialize_rule rule_specs r) = None.
+
+Theorem C19_roundtrip_refuted_dropped :
+  forall (valid_glob valid_regex valid_ident : string -> bool) (norm_globals : list string -> list string) (norm_reqmode : json -> option json) (env_json_ok : string -> bool),
+  valid_regex "^ keep" = true ->
+  exists r r', deserialize_rule valid_glob valid_regex valid_ident norm_globals norm_reqmode env_json_ok rule_specs w_remove_comments = Some r /\
+               deserialize_rule valid_glob valid_regex valid_ident norm_globals norm_reqmode env_json_ok rule_specs (serialize_rule rule_specs r) = Some r' /\
+               r_props r = [("except", PStrList ["^ keep"])] /\ r_props r' = [] /\ ~ rule_equiv r r'.
+Proof. exact (roundtrip_refuted_dropped). Qed.
+Print Assumptions C19_roundtrip_refuted_dropped.
+Check C19_roundtrip_refuted_dropped :
+  forall (valid_glob valid_regex valid_ident : string -> bool) (norm_globals : list string -> list string) (norm_reqmode : json -> option json) (env_json_ok : string -> bool),
+  valid_regex "^ keep" = true ->
+  exists r r', deserialize_rule valid_glob valid_regex valid_ident norm_globals norm_reqmode env_json_ok rule_specs w_remove_comments = Some r /\
+               deserialize_rule valid_glob valid_regex valid_ident norm_globals norm_reqmode env_json_ok rule_specs (serialize_rule rule_specs r) = Some r' /\
+               r_props r = [("except", PStrList ["^ keep"])] /\ r_props r' = [] /\ ~ rule_equiv r r'.
+
+Theorem C19_injective_refuted :
+  forall (valid_glob valid_regex valid_ident : string -> bool) (norm_globals : list string -> list string) (norm_reqmode : json -> option json) (env_json_ok : string -> bool),
+  valid_regex "^ keep" = true ->
+  exists r1 r2, deserialize_rule valid_glob valid_regex valid_ident norm_globals norm_reqmode env_json_ok rule_specs w_remove_comments = Some r1 /\
+                deserialize_rule valid_glob valid_regex valid_ident norm_globals norm_reqmode env_json_ok rule_specs (JStr "remove_comments") = Some r2 /\
+                serialize_rule rule_specs r1 = serialize_rule rule_specs r2 /\ ~ rule_equiv r1 r2.
+Proof. exact (injective_refuted). Qed.
+Print Assumptions C19_injective_refuted.
+Check C19_injective_refuted :
+  forall (valid_glob valid_regex valid_ident : string -> bool) (norm_globals : list string -> list string) (norm_reqmode : json -> option json) (env_json_ok : string -> bool),
+  valid_regex "^ keep" = true ->
+  exists r1 r2, deserialize_rule valid_glob valid_regex valid_ident norm_globals norm_reqmode env_json_ok rule_specs w_remove_comments = Some r1 /\
+                deserialize_rule valid_glob valid_regex valid_ident norm_globals norm_reqmode env_json_ok rule_specs (JStr "remove_comments") = Some r2 /\
+                serialize_rule rule_specs r1 = serialize_rule rule_specs r2 /\ ~ rule_equiv r1 r2.
+
+Theorem C19_strict_refuted_generator_keys :
+  deserialize_generator (JObj [("name", JStr "retain_lines"); ("column_span", JStr "not even a number"); ("foo", JNull)])
+  = Some GRetainLines.
+Proof. exact (generator_extra_key_accepted). Qed.
+Print Assumptions C19_strict_refuted_generator_keys.
+Check C19_strict_refuted_generator_keys :
+  deserialize_generator (JObj [("name", JStr "retain_lines"); ("column_span", JStr "not even a number"); ("foo", JNull)])
+  = Some GRetainLines.
+
